@@ -7,14 +7,21 @@
 // with 1..3 harness pull readers of mixed temporality and 0..2 views on the instrument, in lock-step
 // with a reference model (per reader and stream: pending delta per attribute set, running total,
 // end of the previous interval).
+//
+// Extension parts (one feature each, reduced alphabet): a MetricFilter on reader 0; a reader registered
+// late (AddMetricReader after measurements); a second meter with an instrument of the same name; handles
+// destroyed before the next collection; instruments created from a meter whose provider is gone.
 #include <algorithm>
+#include <array>
 #include <chrono>
 #include <map>
 #include <memory>
 #include <string>
 #include <vector>
 
+#include <opentelemetry/context/context.h>
 #include <opentelemetry/sdk/common/global_log_handler.h>
+#include <opentelemetry/sdk/metrics/export/metric_filter.h>
 #include <opentelemetry/sdk/metrics/meter.h>
 #include <opentelemetry/sdk/metrics/meter_context.h>
 #include <opentelemetry/sdk/metrics/meter_provider.h>
@@ -40,29 +47,42 @@ namespace {
 
 constexpr int NATTR = 3;  // attribute sets: {} , {a=1}, {a=2}
 const char *const kAttrName[NATTR] = {"{}", "{a=1}", "{a=2}"};
+constexpr int NSTREAM = 3;  // at most: two view streams of meter "m" + the stream of meter "m2"
 
-enum Kind { K_U64 = 0, K_DBL = 1, K_UPDOWN = 2 };
-const char *const kKindName[3] = {"UInt64Counter", "DoubleCounter", "Int64UpDownCounter"};
-// value alphabets in model units (scale = units per 1.0): doubles are multiples of 0.25 so that every
-// sum is exact whatever the association order
-const int kNVal[3] = {2, 2, 3};
-const int64_t kUnits[3][3] = {{1, 2, 0}, {2, 9, 0}, {1, 2, -1}};
-const int64_t kScale[3] = {1, 4, 1};
+enum Kind { K_U64 = 0, K_DBL = 1, K_UPDOWN = 2, K_DBL_UPDOWN = 3 };
+constexpr int NKIND = 4;
+const char *const kKindName[NKIND] = {"UInt64Counter", "DoubleCounter", "Int64UpDownCounter", "DoubleUpDownCounter"};
+// value alphabets in model units (doubles: 4 units per 1.0, i.e. multiples of 0.25, so that every sum
+// is exact whatever the association order)
+const int kNVal[NKIND] = {2, 2, 3, 3};
+const int64_t kUnits[NKIND][3] = {{1, 2, 0}, {2, 9, 0}, {1, 2, -1}, {2, 9, -1}};
+inline bool is_dbl(Kind k) { return k == K_DBL || k == K_DBL_UPDOWN; }
+inline bool is_updown(Kind k) { return k == K_UPDOWN || k == K_DBL_UPDOWN; }
 
 int64_t now_ns() { return common::SystemTimestamp(std::chrono::system_clock::now()).time_since_epoch().count(); }
 int64_t ts_ns(const common::SystemTimestamp &t) { return t.time_since_epoch().count(); }
 
+// A pull reader whose temporality selector depends on the instrument type it is asked about, as the
+// selectors of real exporters do: it answers its configured temporality for the type of the instrument
+// of this run and the opposite one for every other type. (For a counter run the delta flavour is the
+// usual "delta for counters, cumulative otherwise" preference; for an up-down run the cumulative flavour
+// is.) A storage that asks with the wrong type therefore gets the wrong temporality.
 class PullReader : public sdkm::MetricReader {
  public:
-  explicit PullReader(bool delta) : delta_(delta) {}
-  sdkm::AggregationTemporality GetAggregationTemporality(sdkm::InstrumentType) const noexcept override {
-    return delta_ ? sdkm::AggregationTemporality::kDelta : sdkm::AggregationTemporality::kCumulative;
+  PullReader(bool delta, sdkm::InstrumentType expect) : delta_(delta), expect_(expect) {}
+  sdkm::AggregationTemporality GetAggregationTemporality(sdkm::InstrumentType t) const noexcept override {
+    bool d = delta_;
+    if (t != expect_) { wrong_type_ = (int)t; asked_wrong_ = true; d = !d; }
+    return d ? sdkm::AggregationTemporality::kDelta : sdkm::AggregationTemporality::kCumulative;
   }
+  mutable bool asked_wrong_ = false;
+  mutable int wrong_type_ = 0;
 
  private:
   bool OnForceFlush(std::chrono::microseconds) noexcept override { return true; }
   bool OnShutDown(std::chrono::microseconds) noexcept override { return true; }
   bool delta_;
+  sdkm::InstrumentType expect_;
 };
 
 // -1: not one of the three attribute sets of the alphabet
@@ -75,29 +95,47 @@ int attr_id(const std::map<std::string, opentelemetry::sdk::common::OwnedAttribu
   return x == 1 ? 1 : x == 2 ? 2 : -1;
 }
 
+const char *const kOverloadName[4] = {"Add(V)", "Add(V,A)", "Add(V,C)", "Add(V,A,C)"};
+
 struct Handle {
   Kind kind;
+  int meter = 0;   // 0: meter "m", 1: meter "m2"
+  int serial = 0;  // for the history text
   nostd::unique_ptr<api::Counter<uint64_t>> u64;
   nostd::unique_ptr<api::Counter<double>> dbl;
   nostd::unique_ptr<api::UpDownCounter<int64_t>> ud;
-  void add(int vi, int attr) {
-    int64_t u = kUnits[kind][vi];
-    if (kind == K_U64) {
-      if (attr == 0) u64->Add((uint64_t)u);
-      else u64->Add((uint64_t)u, {{"a", (int32_t)attr}});
-    } else if (kind == K_DBL) {
-      double v = (double)u / 4.0;
-      if (attr == 0) dbl->Add(v);
-      else dbl->Add(v, {{"a", (int32_t)attr}});
+  nostd::unique_ptr<api::UpDownCounter<double>> dud;
+  // The four overloads of every instrument class are separate hand-written bodies: the harness rotates
+  // through them (with_ctx: the overloads taking an explicit, non-empty Context).
+  template <class I, class V>
+  static void call(I &inst, V v, int attr, bool with_ctx) {
+    if (!with_ctx) {
+      if (attr == 0) inst->Add(v);
+      else inst->Add(v, {{"a", (int32_t)attr}});
     } else {
-      if (attr == 0) ud->Add(u);
-      else ud->Add(u, {{"a", (int32_t)attr}});
+      opentelemetry::context::Context ctx{"k", (int64_t)7};
+      if (attr == 0) inst->Add(v, ctx);
+      else inst->Add(v, {{"a", (int32_t)attr}}, ctx);
     }
+  }
+  void add_units(int64_t u, int attr, bool with_ctx) {
+    if (kind == K_U64) call(u64, (uint64_t)u, attr, with_ctx);
+    else if (kind == K_DBL) call(dbl, (double)u / 4.0, attr, with_ctx);
+    else if (kind == K_UPDOWN) call(ud, (int64_t)u, attr, with_ctx);
+    else call(dud, (double)u / 4.0, attr, with_ctx);
+  }
+  void create(api::Meter &meter_ref, Kind k) {
+    kind = k;
+    if (k == K_U64) u64 = meter_ref.CreateUInt64Counter("c");
+    else if (k == K_DBL) dbl = meter_ref.CreateDoubleCounter("c");
+    else if (k == K_UPDOWN) ud = meter_ref.CreateInt64UpDownCounter("c");
+    else dud = meter_ref.CreateDoubleUpDownCounter("c");
   }
   sdkm::Synchronous *sync() {
     if (kind == K_U64) return static_cast<sdkm::LongCounter *>(u64.get());
     if (kind == K_DBL) return static_cast<sdkm::DoubleCounter *>(dbl.get());
-    return static_cast<sdkm::LongUpDownCounter *>(ud.get());
+    if (kind == K_UPDOWN) return static_cast<sdkm::LongUpDownCounter *>(ud.get());
+    return static_cast<sdkm::DoubleUpDownCounter *>(dud.get());
   }
 };
 
@@ -105,7 +143,7 @@ struct Handle {
 bool point_units(Kind kind, const sdkm::PointType &pt, int64_t *units, std::string *why) {
   if (!nostd::holds_alternative<sdkm::SumPointData>(pt)) { *why = "point is not a SumPointData"; return false; }
   const auto &sp = nostd::get<sdkm::SumPointData>(pt);
-  if (kind == K_DBL) {
+  if (is_dbl(kind)) {
     if (!nostd::holds_alternative<double>(sp.value_)) { *why = "double instrument reports a non-double value"; return false; }
     double v = nostd::get<double>(sp.value_) * 4.0;
     if (!(v > -1e15 && v < 1e15) || (double)(int64_t)v != v) { *why = vf::sfmt("value %.17g is not a sum of the recorded values", v / 4.0); return false; }
@@ -118,24 +156,37 @@ bool point_units(Kind kind, const sdkm::PointType &pt, int64_t *units, std::stri
 }
 
 std::string show_units(Kind kind, int64_t u) {
-  if (kind == K_DBL) return vf::sfmt("%g", (double)u / 4.0);
+  if (is_dbl(kind)) return vf::sfmt("%g", (double)u / 4.0);
   return vf::sfmt("%lld", (long long)u);
 }
 
 struct ReaderCfg { int n; bool delta[3]; };
-// A run is split into parts with different bounds: (depth, alphabet, reader configurations).
+// A run is split into parts with different bounds: (depth, alphabet, reader configurations, feature).
 //   n_attr: attribute sets {} and {a=1} (2) or also {a=2} (3)
 //   one_value: one value per instrument (up-down: +1 and -1) instead of two (up-down: three)
 //   readers: ALL14 = every ordered configuration of 1..3 readers; REP8 = one per multiset of
 //            temporalities (readers are interchangeable up to their position in the collector list)
-//            plus one reordering; REP6 = REP8 without CC and CDD; TWO5 = at most two readers
-enum ReaderSet { ALL14 = 0, REP8 = 1, REP6 = 2, TWO5 = 3 };
-struct Part { int depth; int n_attr; bool one_value; ReaderSet readers; };
+//            plus one reordering; REP6 = REP8 without CC and CDD; TWO5 = at most two readers;
+//            FEW3 = D, C, DC; FILT5 = D, C, DD, DC, CD (the filter sits on the first reader)
+//   feat:    F_FILTER  reader 0 is registered with a MetricFilter (two filter configurations)
+//            F_LATE    operation AddReader(delta|cumulative), offered once per history
+//            F_METERS  a second meter "m2" with an instrument of the same name (one handle per meter)
+//            F_DESTROY operation Destroy(handle); up to three Create in a history
+//            F_ORPHAN  no history: every Add overload of every instrument class on an instrument that
+//                      was created from a meter whose MeterProvider is gone
+//   small_dud: the double up-down counter uses two values (+0.5, -0.25) instead of three
+enum ReaderSet { ALL14 = 0, REP8 = 1, REP6 = 2, TWO5 = 3, FEW3 = 4, FILT5 = 5, NREADERSETS = 6 };
+enum Feature { F_NONE = 0, F_FILTER = 1, F_LATE = 2, F_METERS = 3, F_DESTROY = 4, F_ORPHAN = 5 };
+const char *const kFeatName[6] = {"", "filter ", "late-reader ", "two-meters ", "destroy ", "orphan "};
+//   kinds / views: bit masks of the instrument kinds and view counts (0, 1, 2) the part runs over
+struct Part { int depth; int n_attr; bool one_value; ReaderSet readers; Feature feat; bool small_dud; unsigned kinds; unsigned views; };
+constexpr unsigned ALLK = 0xf, ALLV = 0x7;
+constexpr unsigned TWOK = (1u << K_U64) | (1u << K_DBL_UPDOWN);  // one integer counter, one double up-down counter
 std::vector<Part> g_parts;
-std::vector<ReaderCfg> g_reader_sets[4];
+std::vector<ReaderCfg> g_reader_sets[NREADERSETS];
 int g_max_handles = 2;
-const int kNValSmall[3] = {1, 1, 2};
-const int kSmallVal[3][2] = {{0, 0}, {0, 0}, {0, 2}};  // indices into kUnits
+const int kNValSmall[NKIND] = {1, 1, 2, 2};
+const int kSmallVal[NKIND][2] = {{0, 0}, {0, 0}, {0, 2}, {0, 2}};  // indices into kUnits
 
 void setup(vf::Options &o) {
   o.split_depth = 5;
@@ -152,28 +203,49 @@ void setup(vf::Options &o) {
   g_reader_sets[REP8] = {{1, {D}}, {1, {C}}, {2, {D, D}}, {2, {D, C}}, {2, {C, C}}, {3, {D, D, C}}, {3, {D, C, C}}, {3, {C, D, D}}};
   g_reader_sets[REP6] = {{1, {D}}, {1, {C}}, {2, {D, D}}, {2, {D, C}}, {3, {D, D, C}}, {3, {D, C, C}}};
   g_reader_sets[TWO5] = {{1, {D}}, {1, {C}}, {2, {D, D}}, {2, {D, C}}, {2, {C, C}}};
-  if (o.thorough) g_parts = {{5, 3, false, REP8}, {5, 2, true, ALL14}, {6, 2, true, REP8}, {7, 2, true, TWO5}};
-  else g_parts = {{5, 2, false, REP6}};
+  g_reader_sets[FEW3] = {{1, {D}}, {1, {C}}, {2, {D, C}}};
+  g_reader_sets[FILT5] = {{1, {D}}, {1, {C}}, {2, {D, D}}, {2, {D, C}}, {2, {C, D}}};
+  if (o.thorough)
+    g_parts = {{5, 3, false, REP8, F_NONE, false, ALLK, ALLV}, {5, 2, true, ALL14, F_NONE, false, ALLK, ALLV}, {6, 2, true, REP8, F_NONE, false, ALLK, ALLV},
+               {7, 2, true, TWO5, F_NONE, false, ALLK, ALLV},
+               {6, 2, true, FILT5, F_FILTER, false, TWOK, ALLV}, {6, 2, true, FEW3, F_LATE, false, TWOK, ALLV}, {6, 2, true, FEW3, F_METERS, false, TWOK, ALLV},
+               {6, 2, true, FEW3, F_DESTROY, false, TWOK, ALLV}, {1, 2, true, FEW3, F_ORPHAN, false, ALLK, ALLV}};
+  else
+    g_parts = {{5, 2, false, REP6, F_NONE, true, ALLK, ALLV}, {4, 2, true, FILT5, F_FILTER, false, TWOK, ALLV}, {5, 2, true, FEW3, F_LATE, false, TWOK, 0x1},
+               {4, 2, true, FEW3, F_METERS, false, TWOK, 0x5}, {5, 2, true, FEW3, F_DESTROY, false, TWOK, 0x5}, {1, 2, true, FEW3, F_ORPHAN, false, ALLK, ALLV}};
   std::string d = o.get("depth");
-  if (!d.empty()) g_parts = {{atoi(d.c_str()), atoi(o.get("nattr", "3").c_str()), o.get("onevalue") == "1", (ReaderSet)atoi(o.get("readers", "1").c_str())}};
+  if (!d.empty())
+    g_parts = {{atoi(d.c_str()), atoi(o.get("nattr", "3").c_str()), o.get("onevalue") == "1", (ReaderSet)atoi(o.get("readers", "1").c_str()),
+                (Feature)atoi(o.get("feat", "0").c_str()), o.get("smalldud") == "1", (unsigned)atoi(o.get("kinds", "15").c_str()), (unsigned)atoi(o.get("views", "7").c_str())}};
 }
+
+typedef std::array<int64_t, NATTR> Totals;
 
 struct ReaderStream {
   int64_t pending[NATTR] = {0, 0, 0};
   bool touched[NATTR] = {false, false, false};
-  bool emitted = false;      // a MetricData for this stream was handed to this reader before
+  bool emitted = false;       // a MetricData for this stream was handed to this reader before
   int64_t prev_emit_end = 0;  // its end_ts
+  // reader registered late: what it is given is counted from a point in time no later than its
+  // registration; that point (base = the totals then) is read off its first collection
+  bool first_done = false;
+  int64_t base[NATTR] = {0, 0, 0};
+  bool since_reg[NATTR] = {false, false, false};  // recorded after the registration
 };
 struct ReaderModel {
   bool delta = false;
   bool collected = false;
   int64_t prev_a = 0, prev_b = 0;  // harness clock readings around this reader's previous Collect
-  ReaderStream rs[2];
+  bool late = false;               // registered by an AddReader operation
+  int64_t reg_b = 0;               // harness clock reading after the registration
+  bool filtered = false;           // registered with a MetricFilter
+  ReaderStream rs[NSTREAM];
 };
 struct StreamModel {
-  std::string name;
+  std::string scope, name;
   int64_t total[NATTR] = {0, 0, 0};
   bool ever[NATTR] = {false, false, false};
+  std::vector<Totals> cuts;  // F_LATE: the totals at SDK start, at every collection and at the registration
 };
 
 struct GotStream {
@@ -210,80 +282,149 @@ void hash_map(vf::H128 &h, Kind kind, const sdkm::AttributesHashMap *m) {
   h.add(other);
 }
 
+// F_ORPHAN: the MeterProvider (and with it the MeterContext) is destroyed while the application still
+// holds the Meter; instruments created from then on have no storage and every Add must be a no-op.
+void run_orphan(vf::Ctx &c, int part) {
+  const Kind kind = (Kind)c.pick("kind", NKIND);
+  const int ov = c.pick("overload", 4);
+  c.stage("setup");
+  nostd::shared_ptr<api::Meter> meter;
+  {
+    sdkm::MeterProvider provider(std::unique_ptr<sdkm::ViewRegistry>(new sdkm::ViewRegistry()), opentelemetry::sdk::resource::Resource::GetEmpty());
+    meter = provider.GetMeter("m");
+  }
+  Handle h;
+  h.create(*meter, kind);
+  c.step();
+  // the stage names the overload: a crash is reported as C06:crash:<stage>
+  c.stage(vf::sfmt("%s::%s:meter-outlived-provider", kKindName[kind], kOverloadName[ov]).c_str());
+  h.add_units(kUnits[kind][0], (ov & 1) ? 1 : 0, (ov & 2) != 0);
+  c.stage("done");
+  std::string s = vf::sfmt("part%d orphan %s::%s returned", part, kKindName[kind], kOverloadName[ov]);
+  vf::H128 st;
+  st.add(0x0c06); st.add((uint64_t)kind); st.add((uint64_t)ov);
+  c.state(st);
+  c.outcome(s);
+  c.sample(s);
+}
+
 void run(vf::Ctx &c) {
   vf::clock_reset();
   vf::clock_set_autostep_ns(1000);
   const int part = c.pick("part", (int)g_parts.size());
   const Part &P = g_parts[part];
+  if (P.feat == F_ORPHAN) { run_orphan(c, part); return; }
   const int g_depth = P.depth;
-  const Kind kind = (Kind)c.pick("kind", 3);
-  const int nviews = c.pick("views", 3);
+  int kind_list[NKIND], n_kinds = 0, view_list[3], n_viewcfg = 0;
+  for (int k = 0; k < NKIND; ++k) if (P.kinds & (1u << k)) kind_list[n_kinds++] = k;
+  for (int v = 0; v < 3; ++v) if (P.views & (1u << v)) view_list[n_viewcfg++] = v;
+  const Kind kind = (Kind)kind_list[c.pick("kind", n_kinds)];
+  const int nviews = view_list[c.pick("views", n_viewcfg)];
   const std::vector<ReaderCfg> &g_readers = g_reader_sets[P.readers];
   const int rcfg = c.pick("readers", (int)g_readers.size());
   const ReaderCfg &RC = g_readers[rcfg];
+  const int fcfg = P.feat == F_FILTER ? c.pick("filter", 2) : -1;
   const int n_attr = P.n_attr;
-  const int n_val = P.one_value ? kNValSmall[kind] : kNVal[kind];
-  const int R = RC.n;
-  const int S = nviews == 2 ? 2 : 1;
+  const bool small_vals = P.one_value || (P.small_dud && kind == K_DBL_UPDOWN);
+  const int n_val = small_vals ? kNValSmall[kind] : kNVal[kind];
+  int R = RC.n;
+  const int S0 = nviews == 2 ? 2 : 1;                 // streams of meter "m"
+  const int S = S0 + (P.feat == F_METERS ? 1 : 0);  // + the stream of meter "m2"
 
   c.stage("setup");
   const int64_t t0 = now_ns();
   sdkm::MeterProvider provider(std::unique_ptr<sdkm::ViewRegistry>(new sdkm::ViewRegistry()), opentelemetry::sdk::resource::Resource::GetEmpty());
   const int64_t t1 = now_ns();
-  const sdkm::InstrumentType itype = kind == K_UPDOWN ? sdkm::InstrumentType::kUpDownCounter : sdkm::InstrumentType::kCounter;
-  StreamModel streams[2];
+  const sdkm::InstrumentType itype = is_updown(kind) ? sdkm::InstrumentType::kUpDownCounter : sdkm::InstrumentType::kCounter;
+  StreamModel streams[NSTREAM];
   streams[0].name = "c";
+  for (int s = 0; s < S0; ++s) streams[s].scope = "m";
   for (int v = 0; v < nviews; ++v) {
     streams[v].name = v == 0 ? "va" : "vb";
     provider.AddView(std::unique_ptr<sdkm::InstrumentSelector>(new sdkm::InstrumentSelector(itype, "c", "")),
                      std::unique_ptr<sdkm::MeterSelector>(new sdkm::MeterSelector("m", "", "")),
                      std::unique_ptr<sdkm::View>(new sdkm::View(streams[v].name)));
   }
+  if (P.feat == F_METERS) { streams[S0].scope = "m2"; streams[S0].name = "c"; }
+  // F_FILTER: which points reader 0 is allowed to see.
+  //   filter 0: first stream of the instrument accepted partially (only {a=1} passes), second stream dropped
+  //   filter 1: first stream dropped, second stream accepted
+  auto visible = [&](int s, int x) { return fcfg < 0 ? true : fcfg == 0 ? (s == 0 && x == 1) : s == 1; };
   std::vector<std::shared_ptr<PullReader>> readers;
   ReaderModel rm[3];
   for (int r = 0; r < R; ++r) {
-    readers.push_back(std::make_shared<PullReader>(RC.delta[r]));
-    provider.AddMetricReader(readers.back());
+    readers.push_back(std::make_shared<PullReader>(RC.delta[r], itype));
+    if (r == 0 && fcfg >= 0) {
+      const std::string first = streams[0].name;
+      provider.AddMetricReader(readers.back(),
+                               sdkm::MetricFilter::Create(
+                                   [first, fcfg](const opentelemetry::sdk::instrumentationscope::InstrumentationScope &, nostd::string_view name, const sdkm::InstrumentType &,
+                                                 nostd::string_view) {
+                                     bool is_first = std::string(name.data(), name.size()) == first;
+                                     if (fcfg == 0) return is_first ? sdkm::MetricFilter::MetricFilterResult::kAcceptPartial : sdkm::MetricFilter::MetricFilterResult::kDrop;
+                                     return is_first ? sdkm::MetricFilter::MetricFilterResult::kDrop : sdkm::MetricFilter::MetricFilterResult::kAccept;
+                                   },
+                                   [](const opentelemetry::sdk::instrumentationscope::InstrumentationScope &, nostd::string_view, const sdkm::InstrumentType &, nostd::string_view,
+                                      const sdkm::PointAttributes &attrs) {
+                                     return attr_id(attrs) == 1 ? sdkm::MetricFilter::AttributesFilterResult::kAccept : sdkm::MetricFilter::AttributesFilterResult::kDrop;
+                                   }));
+      rm[r].filtered = true;
+    } else {
+      provider.AddMetricReader(readers.back());
+    }
     rm[r].delta = RC.delta[r];
   }
   nostd::shared_ptr<api::Meter> meter = provider.GetMeter("m");
-  sdkm::Meter *sdk_meter = static_cast<sdkm::Meter *>(meter.get());
+  nostd::shared_ptr<api::Meter> meter2;
+  if (P.feat == F_METERS) meter2 = provider.GetMeter("m2");
+  sdkm::Meter *sdk_meter[2] = {static_cast<sdkm::Meter *>(meter.get()), meter2 ? static_cast<sdkm::Meter *>(meter2.get()) : nullptr};
   std::vector<std::unique_ptr<Handle>> handles;
-  auto create = [&]() {
+  // all storages ever created, found through the handles that write to them (creation order); they
+  // stay registered with their meter when the handle goes away
+  std::vector<sdkm::SyncMetricStorage *> all_storages;
+  int created_total = 0;
+  int created_m0 = 0;  // handles obtained for the instrument of meter "m" so far
+  auto create = [&](int on_meter) {
     std::unique_ptr<Handle> h(new Handle());
-    h->kind = kind;
-    if (kind == K_U64) h->u64 = meter->CreateUInt64Counter("c");
-    else if (kind == K_DBL) h->dbl = meter->CreateDoubleCounter("c");
-    else h->ud = meter->CreateInt64UpDownCounter("c");
+    h->meter = on_meter;
+    h->serial = created_total++;
+    if (on_meter == 0) created_m0++;
+    h->create(on_meter == 0 ? *meter : *meter2, kind);
+    auto *multi = static_cast<sdkm::SyncMultiMetricStorage *>(h->sync()->storage_.get());
+    for (auto &s : multi->storages_) {
+      auto *p = static_cast<sdkm::SyncMetricStorage *>(s.get());
+      if (std::find(all_storages.begin(), all_storages.end(), p) == all_storages.end()) all_storages.push_back(p);
+    }
     handles.push_back(std::move(h));
   };
-  create();
+  create(0);
+  if (P.feat == F_METERS) create(1);
 
-  std::string cfgs = vf::sfmt("part%d %s views=%d readers=", part, kKindName[kind], nviews);
+  std::string cfgs = vf::sfmt("part%d %s%s views=%d readers=", part, kFeatName[P.feat], kKindName[kind], nviews);
   for (int r = 0; r < R; ++r) cfgs += RC.delta[r] ? 'D' : 'C';
+  if (fcfg >= 0) cfgs += fcfg == 0 ? " filter(r0)=partial{a=1}/drop" : " filter(r0)=drop/accept";
   std::string hist;
   std::string outlog;
   bool sdk_start_known = false;
   int64_t sdk_start = 0;
-  uint64_t model_fold = 0;  // nothing of the model is history dependent beyond the fields hashed below
-
-  // all storages ever created, through the handles that write to them (creation order)
-  auto storages = [&]() {
-    std::vector<sdkm::SyncMetricStorage *> out;
-    for (auto &h : handles) {
-      auto *multi = static_cast<sdkm::SyncMultiMetricStorage *>(h->sync()->storage_.get());
-      for (auto &s : multi->storages_) out.push_back(static_cast<sdkm::SyncMetricStorage *>(s.get()));
+  bool late_added = false;
+  for (int s = 0; s < S; ++s) streams[s].cuts.push_back(Totals{{0, 0, 0}});
+  auto snapshot_cuts = [&]() {
+    for (int s = 0; s < S; ++s) {
+      Totals t{{streams[s].total[0], streams[s].total[1], streams[s].total[2]}};
+      if (std::find(streams[s].cuts.begin(), streams[s].cuts.end(), t) == streams[s].cuts.end()) streams[s].cuts.push_back(t);
     }
-    return out;
   };
-  auto collectors = provider.context_->GetCollectors();
 
   auto real_state = [&](vf::H128 &h) {
     h.add(0xc06);
-    h.add((uint64_t)part); h.add((uint64_t)kind); h.add((uint64_t)nviews); h.add((uint64_t)rcfg); h.add((uint64_t)handles.size());
+    h.add((uint64_t)part); h.add((uint64_t)kind); h.add((uint64_t)nviews); h.add((uint64_t)rcfg); h.add((uint64_t)(fcfg + 1));
+    h.add((uint64_t)handles.size()); h.add((uint64_t)created_total);
+    for (auto &hd : handles) h.add((uint64_t)hd->meter);
     h.add((uint64_t)(ts_ns(provider.context_->sdk_start_ts_) - vf::clock_system_base_ns()));
-    std::vector<sdkm::SyncMetricStorage *> st = storages();
-    for (auto *s : st) {
+    auto collectors = provider.context_->GetCollectors();
+    h.add((uint64_t)collectors.size());
+    for (auto *s : all_storages) {
       h.add_str(s->instrument_descriptor_.name_);
       hash_map(h, kind, s->attributes_hashmap_.get());
       sdkm::TemporalMetricStorage &t = s->temporal_metric_storage_;
@@ -303,33 +444,42 @@ void run(vf::Ctx &c) {
         }
       }
     }
-    // which storages the meter collects (the key strings are not hashed: a repaired registry may put
+    // which storages each meter collects (the key strings are not hashed: the registry puts
     // addresses into them; what a key collides with is a function of the configuration)
-    std::vector<int> reg;
-    for (auto &kv : sdk_meter->storage_registry_) {
-      int idx = -1;
-      for (size_t i = 0; i < st.size(); ++i)
-        if (static_cast<sdkm::MetricStorage *>(st[i]) == kv.second.get()) { idx = (int)i; break; }
-      reg.push_back(idx);
+    for (int mi = 0; mi < 2; ++mi) {
+      if (!sdk_meter[mi]) continue;
+      std::vector<int> reg;
+      for (auto &kv : sdk_meter[mi]->storage_registry_) {
+        int idx = -1;
+        for (size_t i = 0; i < all_storages.size(); ++i)
+          if (static_cast<sdkm::MetricStorage *>(all_storages[i]) == kv.second.get()) { idx = (int)i; break; }
+        reg.push_back(idx);
+      }
+      std::sort(reg.begin(), reg.end());
+      h.add(0x7e9 + reg.size());
+      for (int e : reg) h.add((uint64_t)e);
     }
-    std::sort(reg.begin(), reg.end());
-    h.add(0x7e9 + reg.size());
-    for (int e : reg) h.add((uint64_t)e);
     h.add((uint64_t)vf::clock_virtual_ns());  // position of the (deterministic) clock
   };
   auto model_state = [&](vf::H128 &h) {
     h.add(sdk_start_known ? 1 : 0);
-    for (int s = 0; s < S; ++s)
+    h.add((uint64_t)R); h.add(late_added);
+    for (int s = 0; s < S; ++s) {
       for (int x = 0; x < NATTR; ++x) { h.add((uint64_t)streams[s].total[x]); h.add(streams[s].ever[x]); }
-    for (int r = 0; r < R; ++r) {
-      h.add(rm[r].collected); h.add((uint64_t)rm[r].prev_a);
-      for (int s = 0; s < S; ++s) {
-        const ReaderStream &q = rm[r].rs[s];
-        h.add(q.emitted); h.add((uint64_t)q.prev_emit_end);
-        for (int x = 0; x < NATTR; ++x) { h.add((uint64_t)q.pending[x]); h.add(q.touched[x]); }
+      if (P.feat == F_LATE) {
+        // the points in time a late reader may count from: needed until every late reader has reported once
+        h.add(0xc0 + streams[s].cuts.size());
+        for (auto &t : streams[s].cuts) for (int x = 0; x < NATTR; ++x) h.add((uint64_t)t[x]);
       }
     }
-    h.add(model_fold);
+    for (int r = 0; r < R; ++r) {
+      h.add(rm[r].delta); h.add(rm[r].collected); h.add((uint64_t)rm[r].prev_a); h.add(rm[r].late); h.add((uint64_t)rm[r].reg_b);
+      for (int s = 0; s < S; ++s) {
+        const ReaderStream &q = rm[r].rs[s];
+        h.add(q.emitted); h.add((uint64_t)q.prev_emit_end); h.add(q.first_done);
+        for (int x = 0; x < NATTR; ++x) { h.add((uint64_t)q.pending[x]); h.add(q.touched[x]); h.add((uint64_t)q.base[x]); h.add(q.since_reg[x]); }
+      }
+    }
   };
 
   vf::H128 cur;  // hash of the real objects' state after the operations so far
@@ -338,47 +488,63 @@ void run(vf::Ctx &c) {
     const bool last = d == g_depth - 1;
     const int nh = (int)handles.size();
     const int n_add = last ? 0 : nh * n_attr * n_val;
-    const int n_create = (!last && nh < g_max_handles) ? 1 : 0;
+    int n_create = 0;
+    if (!last) {
+      if (P.feat == F_METERS) n_create = 0;
+      else if (P.feat == F_DESTROY) n_create = (nh < g_max_handles && created_m0 < 3) ? 1 : 0;
+      else n_create = nh < g_max_handles ? 1 : 0;
+    }
+    const int n_late = (!last && P.feat == F_LATE && !late_added && R < 3) ? 2 : 0;  // AddReader(delta), AddReader(cumulative)
+    const int n_destroy = (!last && P.feat == F_DESTROY) ? nh : 0;
+    const int n_ops = n_add + R + n_create + n_late + n_destroy;
     {
       // Sound pruning: the hash covers every field of the real objects that a later Add / Create /
       // Collect reads (per-storage interval map, per-collector stashes and last reports with their
-      // timestamps, the meter's registry, the SDK start time, the clock position) plus the model.
+      // timestamps, the meters' registries, the SDK start time, the clock position) plus the model.
+      // The Add overload used at a step is a function of the remaining depth, which is hashed.
       vf::H128 h = cur;
       h.add((uint64_t)(g_depth - d));
       model_state(h);
       // (a forced pick is not a recorded choice, so pruning in front of it would also prune the
       // confirmation replay of a violation found behind it)
-      if (n_add + R + n_create > 1) c.prune_point(h);
+      if (n_ops > 1) c.prune_point(h);
     }
     // the final operation of a history is always a Collect: an Add or Create that nothing observes checks nothing
-    int op = c.pick("op", n_add + R + n_create);
+    int op = c.pick("op", n_ops);
     c.step();
     if (op < n_add) {
       int hi = op / (n_attr * n_val), rest = op % (n_attr * n_val);
-      int attr = rest / n_val, vi = P.one_value ? kSmallVal[kind][rest % n_val] : rest % n_val;
+      int attr = rest / n_val, vi = small_vals ? kSmallVal[kind][rest % n_val] : rest % n_val;
+      const bool with_ctx = (d & 1) != 0;  // odd steps use the overloads that take an explicit Context
       c.stage("Add");
-      hist += vf::sfmt(" Add(h%d,%s,%s)", hi, show_units(kind, kUnits[kind][vi]).c_str(), kAttrName[attr]);
-      handles[hi]->add(vi, attr);
-      int64_t u = kUnits[kind][vi];
-      for (int s = 0; s < S; ++s) {
+      hist += vf::sfmt(" Add(h%d,%s,%s%s)", handles[hi]->serial, show_units(kind, kUnits[kind][vi]).c_str(), kAttrName[attr], with_ctx ? ",ctx" : "");
+      const int64_t u = kUnits[kind][vi];
+      handles[hi]->add_units(u, attr, with_ctx);
+      const int s_lo = handles[hi]->meter == 0 ? 0 : S0, s_hi = handles[hi]->meter == 0 ? S0 : S;
+      for (int s = s_lo; s < s_hi; ++s) {
         streams[s].total[attr] += u;
         streams[s].ever[attr] = true;
-        for (int r = 0; r < R; ++r) { rm[r].rs[s].pending[attr] += u; rm[r].rs[s].touched[attr] = true; }
+        for (int r = 0; r < R; ++r) {
+          rm[r].rs[s].pending[attr] += u;
+          rm[r].rs[s].touched[attr] = true;
+          if (rm[r].late) rm[r].rs[s].since_reg[attr] = true;
+        }
       }
     } else if (op < n_add + R) {
       const int r = op - n_add;
       c.stage("Collect");
       hist += vf::sfmt(" Collect(r%d)", r);
-      GotStream got[2];
+      GotStream got[NSTREAM];
       std::string problem_sig, problem_msg;
       auto problem = [&](const char *sig, const std::string &msg) { if (problem_sig.empty()) { problem_sig = sig; problem_msg = msg; } };
       const int64_t a = now_ns();
       readers[r]->Collect([&](sdkm::ResourceMetrics &rmx) {
-        for (auto &sm : rmx.scope_metric_data_)
+        for (auto &sm : rmx.scope_metric_data_) {
+          const std::string scope = sm.scope_ ? sm.scope_->GetName() : std::string("<null scope>");
           for (auto &md : sm.metric_data_) {
             int s = -1;
-            for (int i = 0; i < S; ++i) if (md.instrument_descriptor.name_ == streams[i].name) s = i;
-            if (s < 0) { problem("C06:unknown-stream", "a stream named '" + md.instrument_descriptor.name_ + "' was collected"); continue; }
+            for (int i = 0; i < S; ++i) if (md.instrument_descriptor.name_ == streams[i].name && scope == streams[i].scope) s = i;
+            if (s < 0) { problem("C06:unknown-stream", "a stream named '" + md.instrument_descriptor.name_ + "' of scope '" + scope + "' was collected"); continue; }
             if (got[s].present) { problem("C06:duplicate-stream", "stream '" + streams[s].name + "' was handed to the reader twice in one collection"); continue; }
             got[s].present = true;
             got[s].start = ts_ns(md.start_ts);
@@ -395,66 +561,101 @@ void run(vf::Ctx &c) {
               got[s].val[id] = u;
             }
           }
+        }
         return true;
       });
       const int64_t b = now_ns();
       std::string where = " [" + cfgs + ";" + hist + "]";
+      for (int q = 0; q < R; ++q)
+        c.check(!readers[q]->asked_wrong_, "C06:temporality-asked-for-wrong-type",
+                vf::sfmt("reader r%d was asked for its temporality with instrument type %d, the instrument's type is %d", q, readers[q]->wrong_type_, (int)itype) + where);
       if (!problem_sig.empty()) c.fail(problem_sig, problem_msg + where);
-      const char *hctx = handles.size() > 1 ? ":multi-handle" : "";
+      const char *hctx = created_m0 > 1 ? ":multi-handle" : "";
       ReaderModel &M = rm[r];
       for (int s = 0; s < S; ++s) {
         ReaderStream &q = M.rs[s];
         const GotStream &g = got[s];
+        const std::string sname = (P.feat == F_METERS ? streams[s].scope + "/" : std::string()) + streams[s].name;
+        const bool first_late = M.late && !q.first_done;
         outlog += vf::sfmt("|r%d.%d:", r, s);
+        if (first_late) {
+          // Reader registered late, first collection of this stream. What it counts from is not stated
+          // (reader registration is not part of the histories the statement quantifies over): any point
+          // in time at which the SDK did something, from SDK start to the registration, is accepted; the
+          // measurements recorded after the registration must all be there.
+          Totals base;
+          for (int x = 0; x < NATTR; ++x) base[x] = streams[s].total[x] - (g.present && g.has[x] ? g.val[x] : 0);
+          bool match = std::find(streams[s].cuts.begin(), streams[s].cuts.end(), base) != streams[s].cuts.end();
+          if (!match) {
+            std::string gots;
+            for (int x = 0; x < NATTR; ++x) gots += vf::sfmt("%s%s=%s", x ? ", " : "", kAttrName[x], g.present && g.has[x] ? show_units(kind, g.val[x]).c_str() : "-");
+            if (c.report("C06:late-reader:first-collection-not-a-suffix-of-the-measurements",
+                         vf::sfmt("reader r%d (%s, registered late), stream '%s': its first collection (%s) is not the sum of everything recorded since SDK start, since a "
+                                  "collection before its registration, or since its registration",
+                                  r, M.delta ? "delta" : "cumulative", sname.c_str(), gots.c_str()) + where))
+              return;
+          }
+          for (int x = 0; x < NATTR; ++x) q.base[x] = base[x];
+        }
         if (!g.present) {
           bool required = false;
-          for (int x = 0; x < NATTR; ++x) required |= M.delta ? q.pending[x] != 0 : streams[s].ever[x];
+          for (int x = 0; x < NATTR; ++x) {
+            if (M.filtered && !visible(s, x)) continue;
+            required |= M.late && !M.delta ? q.since_reg[x] : M.delta ? q.pending[x] != 0 : streams[s].ever[x];
+          }
           outlog += "-";
           if (required) {
-            std::string sig = std::string("C06:stream-absent") + (handles.size() > 1 ? ":multi-handle" : nviews == 2 ? ":multi-view" : "");
-            std::string msg = vf::sfmt("reader r%d (%s) received no data for stream '%s' although measurements are due", r, M.delta ? "delta" : "cumulative", streams[s].name.c_str()) + where;
+            std::string sig = std::string("C06:stream-absent") + (created_m0 > 1 ? ":multi-handle" : nviews == 2 ? ":multi-view" : "");
+            std::string msg = vf::sfmt("reader r%d (%s) received no data for stream '%s' although measurements are due", r, M.delta ? "delta" : "cumulative", sname.c_str()) + where;
             if (c.report(sig, msg)) {
-              if (handles.size() > 1) return;  // known finding: the registry lost a storage, the model cannot follow
+              if (created_m0 > 1) return;  // known finding: the registry lost a storage, the model cannot follow
             }
           }
         } else {
           c.check(g.temp == (M.delta ? sdkm::AggregationTemporality::kDelta : sdkm::AggregationTemporality::kCumulative), "C06:temporality",
-                  vf::sfmt("reader r%d asked for %s but stream '%s' came with temporality %d", r, M.delta ? "delta" : "cumulative", streams[s].name.c_str(), (int)g.temp) + where);
+                  vf::sfmt("reader r%d asked for %s but stream '%s' came with temporality %d", r, M.delta ? "delta" : "cumulative", sname.c_str(), (int)g.temp) + where);
           for (int x = 0; x < NATTR; ++x) {
-            int64_t want = M.delta ? q.pending[x] : streams[s].total[x];
+            if (g.has[x]) outlog += vf::sfmt("%d=%lld,", x, (long long)g.val[x]);
+            if (first_late && M.delta) continue;  // decided above (the value defines the base)
+            int64_t want = M.delta ? q.pending[x] : streams[s].total[x] - (M.late ? q.base[x] : 0);
             bool ok;
             // an absent point is acceptable exactly when it would carry no information: a delta of 0,
-            // or (cumulative) an attribute set that was never recorded
+            // or (cumulative) an attribute set that was never recorded (late reader: not since its
+            // registration); a reader with a filter need not see what its filter rejects
             if (g.has[x]) ok = g.val[x] == want;
-            else ok = M.delta ? want == 0 : !streams[s].ever[x];
-            if (g.has[x]) outlog += vf::sfmt("%d=%lld,", x, (long long)g.val[x]);
+            else if (M.filtered && !visible(s, x)) ok = true;
+            else ok = M.delta ? want == 0 : M.late ? !q.since_reg[x] : !streams[s].ever[x];
             if (!ok) {
               std::string sig = std::string(M.delta ? "C06:delta-point-value" : "C06:cumulative-point-value") + hctx;
-              std::string msg = vf::sfmt("reader r%d (%s), stream '%s', attributes %s: got %s, expected %s (%s)", r, M.delta ? "delta" : "cumulative", streams[s].name.c_str(), kAttrName[x],
+              std::string msg = vf::sfmt("reader r%d (%s), stream '%s', attributes %s: got %s, expected %s (%s)", r, M.delta ? "delta" : "cumulative", sname.c_str(), kAttrName[x],
                                          g.has[x] ? show_units(kind, g.val[x]).c_str() : "no point", show_units(kind, want).c_str(),
-                                         M.delta ? "sum of what was added since this reader's previous collection" : "running total since SDK start") + where;
+                                         M.delta ? "sum of what was added since this reader's previous collection" : M.late ? "running total since the point this late reader counts from" : "running total since SDK start") + where;
               if (c.report(sig, msg)) return;  // known finding: real state and model have parted
             }
           }
           // interval bounds
-          c.check(g.end > a && g.end < b, "C06:end-ts", vf::sfmt("end_ts of stream '%s' is not the time of the collection (offset %lld ns, collection between %lld and %lld)", streams[s].name.c_str(),
+          c.check(g.end > a && g.end < b, "C06:end-ts", vf::sfmt("end_ts of stream '%s' is not the time of the collection (offset %lld ns, collection between %lld and %lld)", sname.c_str(),
                                                                    (long long)(g.end - vf::clock_system_base_ns()), (long long)(a - vf::clock_system_base_ns()), (long long)(b - vf::clock_system_base_ns())) + where);
           bool start_is_sdk_start = sdk_start_known ? g.start == sdk_start : (g.start > t0 && g.start < t1);
           if (!M.delta) {
-            c.check(start_is_sdk_start, "C06:cumulative-start-ts", vf::sfmt("cumulative stream '%s' for reader r%d starts at offset %lld ns, not at SDK start", streams[s].name.c_str(), r,
+            c.check(start_is_sdk_start, "C06:cumulative-start-ts", vf::sfmt("cumulative stream '%s' for reader r%d starts at offset %lld ns, not at SDK start", sname.c_str(), r,
                                                                             (long long)(g.start - vf::clock_system_base_ns())) + where);
-          } else {
+          } else if (!M.filtered) {
+            // (a reader with a filter does not see the intervals its filter swallowed, so the ones it does
+            // see need not abut)
             // allowed: the end of this reader's previous interval for the stream (SDK start if there
             // was none), or the time of this reader's previous collection if that one produced no
-            // interval for the stream (the statement does not say which of the two "previous" means)
+            // interval for the stream (the statement does not say which of the two "previous" means);
+            // first interval of a late reader: anything from SDK start to its registration
             bool ok = q.emitted ? g.start == q.prev_emit_end : start_is_sdk_start;
             if (!ok && M.collected && g.start > M.prev_a && g.start < M.prev_b) ok = true;
+            if (!ok && M.late && !q.emitted && g.start > t0 && g.start < M.reg_b) ok = true;
             if (!ok) {
               bool overlap = q.emitted && g.start < q.prev_emit_end;
               // one reader / several readers: the two code paths of TemporalMetricStorage::buildMetrics;
               // after a second Create the stream may come from another storage altogether
-              std::string sig = std::string(overlap ? "C06:delta-start-ts:overlaps-previous-interval" : "C06:delta-start-ts:does-not-abut") + (handles.size() > 1 ? ":multi-handle" : R == 1 ? ":single-reader" : ":multi-reader");
-              std::string msg = vf::sfmt("delta stream '%s' for reader r%d covers (%lld, %lld] ns but this reader's previous interval ended at %lld ns%s", streams[s].name.c_str(), r,
+              std::string sig = std::string(overlap ? "C06:delta-start-ts:overlaps-previous-interval" : "C06:delta-start-ts:does-not-abut") + (created_m0 > 1 ? ":multi-handle" : R == 1 ? ":single-reader" : ":multi-reader");
+              std::string msg = vf::sfmt("delta stream '%s' for reader r%d covers (%lld, %lld] ns but this reader's previous interval ended at %lld ns%s", sname.c_str(), r,
                                          (long long)(g.start - vf::clock_system_base_ns()), (long long)(g.end - vf::clock_system_base_ns()),
                                          (long long)((q.emitted ? q.prev_emit_end : sdk_start) - vf::clock_system_base_ns()), start_is_sdk_start ? " (it starts at SDK start again)" : "") + where;
               c.report(sig, msg);  // a timestamp only: if known, the values can still be followed
@@ -464,15 +665,35 @@ void run(vf::Ctx &c) {
           q.emitted = true;
           q.prev_emit_end = g.end;
         }
+        q.first_done = true;
         for (int x = 0; x < NATTR; ++x) { q.pending[x] = 0; q.touched[x] = false; }
       }
       M.collected = true;
       M.prev_a = a;
       M.prev_b = b;
-    } else {
+      if (P.feat == F_LATE && !late_added) snapshot_cuts();
+    } else if (op < n_add + R + n_create) {
       c.stage("Create");
       hist += " Create";
-      create();
+      create(0);
+    } else if (op < n_add + R + n_create + n_late) {
+      const bool delta = op - (n_add + R + n_create) == 0;
+      c.stage("AddReader");
+      hist += vf::sfmt(" AddReader(r%d:%s)", R, delta ? "delta" : "cumulative");
+      snapshot_cuts();
+      readers.push_back(std::make_shared<PullReader>(delta, itype));
+      provider.AddMetricReader(readers.back());
+      rm[R].delta = delta;
+      rm[R].late = true;
+      rm[R].reg_b = now_ns();
+      cfgs += delta ? "+d" : "+c";
+      R++;
+      late_added = true;
+    } else {
+      const int hi = op - (n_add + R + n_create + n_late);
+      c.stage("Destroy");
+      hist += vf::sfmt(" Destroy(h%d)", handles[hi]->serial);
+      handles.erase(handles.begin() + hi);
     }
     cur = vf::H128();
     real_state(cur);
